@@ -16,9 +16,10 @@ from .. import scenario as SC
 from .c04 import attr_writes, must_reinit
 
 LEVEL = "other"
-TECHNIQUE = ("who-may-write / additive-update rule on the statistics matrix, sibling agreement of the four accumulate/apply "
-             "bodies on the three regions as closed forms, dtype lattice for the increments, derived-state invalidation rule, "
-             "effect analysis with the in_place flag")
+TECHNIQUE = ("forward substitution + scenario evaluation: the statistics matrix after accumulate (as a whole and per accumulator) and the "
+             "value, dtype and raise conditions of the appliers are compared with the documented closed forms in every scenario; "
+             "who-may-write / additive-update rule, blocked-loop coverage, dtype lattice for the increments, derived-state "
+             "invalidation rule, effect analysis with the in_place flag")
 EXPLANATION = (
     "Decides: every write to the statistics matrix reachable from accumulate is a += onto a matrix created as float64 zeros "
     "and no increment reads the matrix back (so any split or order of the same vectors gives the same sums up to "
